@@ -347,6 +347,7 @@ func writeRegistry(genRoot, outFile string) (int, error) {
 		for name, pkg := range pkgs {
 			methods := map[string]map[string]bool{}
 			structs := map[string]bool{}
+			aliases := map[string]string{}
 			for _, f := range pkg.Files {
 				for _, d := range f.Decls {
 					switch v := d.(type) {
@@ -376,8 +377,20 @@ func writeRegistry(genRoot, outFile string) (int, error) {
 								if _, ok := ts.Type.(*ast.StructType); ok {
 									structs[ts.Name.Name] = true
 								}
+								if id, ok := ts.Type.(*ast.Ident); ok {
+									aliases[ts.Name.Name] = id.Name // `typedef Node List` comes out as `type List Node`
+								}
 							}
 						}
+					}
+				}
+			}
+			// a typedef of a struct of the same package is a struct-like type of its own
+			for changed := true; changed; {
+				changed = false
+				for a, t := range aliases {
+					if structs[t] && !structs[a] {
+						structs[a], changed = true, true
 					}
 				}
 			}
